@@ -404,6 +404,42 @@ mod verif_driver_reduce {
                 }
             }
         }
+        // ... and reduction then leaves no parameter node behind, wherever the parameter sits (a map key, an index, an asset
+        // class ...): the supplied value takes its place
+        for (wname, wexpr) in wrappers(marker("p")) {
+            if wname.starts_with("Coerce.Into") || wname.starts_with("Property.") || wname.starts_with("Query.") || wname.contains("Script") || wname.contains("Compute") || wname == "Negate" || wname.starts_with("Concat") { continue; } // operations a number does not fit, or that wait for the compiler / an input
+            for (pos, tx) in tx_positions(wexpr.clone()) {
+                n += 1;
+                let input = format!("ExpectValue(p) at Tx.{pos} inside {wname}, argument supplied, then reduce");
+                let args = BTreeMap::from([("p".to_string(), ArgValue::Int(7))]);
+                match quiet(|| apply_args(tx.clone(), &args).and_then(reduce)) {
+                    Ok(Ok(t2)) => if count(&t2, "EvalParam(") != 0 { witness("c06_traversal/reduce#closes", "reduce", format!("{input} class=parameter-node-left-after-reduce"), "a parameter node survives reduction".into(), "after supplying the parameter and reducing, its value stands in its place") },
+                    Ok(Err(_)) => {}
+                    Err(_) => {}
+                }
+            }
+        }
+        // whatever kind of value the caller supplies for a reported parameter - whatever type the parameter was declared with -
+        // the parameter is no longer pending (whether the value FITS is the compiler's business and an error there)
+        {
+            use crate::model::core::UtxoRef;
+            let values: Vec<(&str, ArgValue)> = vec![("Int", ArgValue::Int(1)), ("Bool", ArgValue::Bool(true)), ("String", ArgValue::String("addr1xyz".into())), ("Bytes", ArgValue::Bytes(vec![1, 2])),
+                ("Address", ArgValue::Address(vec![0x61; 29])), ("UtxoSet", ArgValue::UtxoSet(HashSet::new())), ("UtxoRef", ArgValue::UtxoRef(UtxoRef { txid: vec![1; 32], index: 0 }))];
+            let types: Vec<(&str, Type)> = vec![("Undefined", Type::Undefined), ("Unit", Type::Unit), ("Int", Type::Int), ("Bool", Type::Bool), ("Bytes", Type::Bytes), ("Address", Type::Address), ("Utxo", Type::Utxo),
+                ("UtxoRef", Type::UtxoRef), ("AnyAsset", Type::AnyAsset), ("List", Type::List), ("Map", Type::Map), ("Custom", Type::Custom("R".into()))];
+            for (tname, ty) in &types { for (vname, v) in &values {
+                n += 1;
+                let mut tx = blank_tx();
+                tx.metadata = vec![Metadata { key: num(1), value: Expression::EvalParam(Box::new(Param::ExpectValue("p".to_string(), ty.clone()))) }];
+                let args = BTreeMap::from([("p".to_string(), v.clone())]);
+                match quiet(|| apply_args(tx.clone(), &args)) {
+                    Ok(Ok(t2)) => if find_params(&t2).contains_key("p") || count(&t2, "ExpectValue(") != 0 {
+                        witness("c06_traversal/apply_args#postcondition", "apply_args", format!("a parameter declared {tname} supplied with a value of kind {vname} class=supplied-parameter-still-pending"), "the parameter is still reported / still pending after its argument was applied".into(), "a reported parameter that got an argument is closed");
+                    },
+                    other => witness("c06_traversal/apply_args#postcondition", "apply_args", format!("a parameter declared {tname} supplied with a value of kind {vname}"), format!("{:?}", other.map(|x| x.map(|_| ()))), "Ok"),
+                }
+            } }
+        }
         // the reported key is the key that is looked up: parameter names are taken verbatim (a TIR need not come from the
         // lowering, which lower-cases names), so supplying exactly what `find_params` reports closes the template
         for pname in ["lockedAmount", "P", "p_1", "\u{e9}t\u{e9}"] {
